@@ -232,7 +232,7 @@ def r3(ctx):
         ok = False
         for p in I.run(hb, [P("self"), P(argn), P("response_header")]):
             calls = [e for e in p.events if e.kind == "call" and e.name.startswith(MEMC + "::")]
-            if len(calls) == 1 and p.state.discr.get(calls[0].result) == 0:
+            if len(calls) == 1 and d2(p, calls[0].result) == 0:
                 v = field_of(p.ret, "0", "value")
                 ok = tform(v) == ("field", ("field", ("as", calls[0].result, "Ok"), "0"), "value")
                 var = p.ret.variant if isinstance(p.ret, Struct) else None
@@ -301,9 +301,9 @@ def r5(ctx):
                 continue
             bad_utf8 = bad_parse = False
             for e in p.events:
-                if e.kind == "call" and e.name.endswith("from_utf8") and p.state.discr.get(e.result) == 1:
+                if e.kind == "call" and e.name.endswith("from_utf8") and d2(p, e.result) == 1:
                     bad_utf8 = True
-                if e.kind == "call" and e.name.endswith("::parse") and p.state.discr.get(e.result) == 1:
+                if e.kind == "call" and e.name.endswith("::parse") and d2(p, e.result) == 1:
                     bad_parse = True
             if not (bad_utf8 or bad_parse):
                 decided = any(e.kind == "call" and e.name.endswith("from_utf8") for e in p.events) and any(e.kind == "call" and e.name.endswith("::parse") for e in p.events)
